@@ -88,7 +88,28 @@ def draw_case(rng, fam, y_branch=None):
     d = round(rng.uniform(0, 0.05), 3)
     T = round(rng.uniform(0.1, 3), 2)
     m = rng.choice([11, 15, 21])
-    return dict(kind="main", fam=fam, params=params, spot=spot, r=r, d=d, T=T, m=m)
+    return dict(kind="main", fam=fam, params=params, spot=spot, r=r, d=d, T=T, m=m, hist=draw_history(rng, T))
+
+
+REUSE_OPS = ["put", "call", "digital", "forward", "density", "cdf", "price_put", "price_call", "butterfly"]
+
+
+def draw_history(rng, T):
+    """a history for ONE pricer object: 3 distinct maturities in random order, one of them priced a second time, and a
+    random interleaving of put/call/digital/forward/density/cdf/price/butterfly at each step"""
+    ts = [T]
+    while len(ts) < 3:
+        t = round(rng.uniform(0.1, 3), 2)
+        if all(abs(t - x) >= 0.05 for x in ts):
+            ts.append(t)
+    rng.shuffle(ts)
+    ts.append(rng.choice(ts[:-1]))
+    steps = []
+    for t in ts:
+        ops = REUSE_OPS[:]
+        rng.shuffle(ops)
+        steps.append(dict(T=t, ops=ops))
+    return dict(steps=steps, fft=rng.random() < 0.3)
 
 
 class Built:
@@ -167,27 +188,32 @@ def exact_probes(ctx, B):
     return call, put, fwdc, dig
 
 
+def shape_violation(K, call, put, df, F, spot):
+    """the no-arbitrage band / monotonicity / convexity of the property on a uniform strike grid; None if fine"""
+    tol = 1e-9 * spot
+    v = max(np.max(df * np.maximum(F - K, 0.0) - call), np.max(call - df * F), np.max(df * np.maximum(K - F, 0) - put),
+            np.max(put - df * K))
+    if not v <= tol:
+        return "bounds: intrinsic <= call <= df*F or df*(K-F)^+ <= put <= df*K violated"
+    dc = np.diff(call)
+    if np.max(dc) > tol:
+        return "call not decreasing in the strike"
+    if np.min(dc) < -df * (K[1] - K[0]) - tol:
+        return "call spread exceeds df*(K2-K1)"
+    if np.min(np.diff(call, 2)) < -1e-8 * spot:
+        return "call not convex in the strike (second difference)"
+    return None
+
+
 def shape_probes(ctx, B, call, put, dig):
     case, K, spot, df, F = B.case, B.K, B.spot, B.df, B.F
     tol = 1e-9 * spot
     ctx.count("c18.cos.shape", case, nontrivial=len(K) >= 11, branch=case["fam"])
-    lower, upper = df * np.maximum(F - K, 0.0), df * F
-    bad = None
-    v = max(np.max(lower - call), np.max(call - upper), np.max(df * np.maximum(K - F, 0) - put), np.max(put - df * K))
+    v = max(np.max(df * np.maximum(F - K, 0.0) - call), np.max(call - df * F), np.max(df * np.maximum(K - F, 0) - put), np.max(put - df * K))
     note("cos.bounds", max(v, 0), tol)
-    if v > tol:
-        bad = "bounds: intrinsic <= call <= df*F or df*(K-F)^+ <= put <= df*K violated"
-    dc = np.diff(call)
-    hK = K[1] - K[0]
-    note("cos.monotone", max(np.max(dc), 0), tol)
-    if bad is None and np.max(dc) > tol:
-        bad = "call not decreasing in the strike"
-    if bad is None and np.min(dc) < -df * hK - tol:
-        bad = "call spread exceeds df*(K2-K1)"
-    d2 = np.diff(call, 2)
-    note("cos.convex", max(-np.min(d2), 0), 1e-8 * spot)
-    if bad is None and np.min(d2) < -1e-8 * spot:
-        bad = "call not convex in the strike (second difference)"
+    note("cos.monotone", max(np.max(np.diff(call)), 0), tol)
+    note("cos.convex", max(-np.min(np.diff(call, 2)), 0), 1e-8 * spot)
+    bad = shape_violation(K, call, put, df, F, spot)
     if bad:
         ctx.fail("oracle", "c18.cos.shape", case, {"what": bad, "K": K, "call": call, "put": put, "df": df, "F": F}, cls=B.cls)
     # butterfly as coded
@@ -412,6 +438,107 @@ def vg_cgmy_probe(ctx, B, call):
         ctx.fail("oracle", "c18.vg_cgmy", case, {"what": "VG and its CGMY(y=0) parametrisation disagree", "K": K, "vg": call, "cgmy": c2}, cls=B.cls)
 
 
+def _op(cos, op, K, T, u):
+    """one observable of a COSPricer at maturity T"""
+    i = len(K) // 2
+    if op == "put":
+        return np.asarray(cos.put(K, T))
+    if op == "call":
+        return np.asarray(cos.call(K, T))
+    if op == "digital":
+        return np.asarray(cos.digital(K, T))
+    if op == "forward":
+        return np.asarray(cos.forward(K, T))
+    if op == "density":
+        return np.asarray(cos.density_log(T, u))
+    if op == "cdf":
+        return np.asarray(cos.cdf(T, K))
+    if op == "price_put":
+        return np.asarray(cos.price(Product(Spot(), Vanilla(float(K[i]), PayoffType.PUT), T))).reshape(-1)
+    if op == "price_call":
+        return np.asarray(cos.price(Product(Spot(), Vanilla(float(K[i]), PayoffType.CALL), T))).reshape(-1)
+    if op == "butterfly":
+        return np.asarray([cos.butterfly(float(K[i - 1]), float(K[i]), float(K[i + 1]), T)])
+    raise ValueError(op)
+
+
+def reuse_probe(ctx, B, heavy):
+    """history probe: the property quantifies over all maturities of a model, so what ONE pricer object returns at a
+    maturity must not depend on which maturities / products it priced before.  One COSPricer (one FFTPricer, one
+    CFBlackScholes) prices strike vectors at 3 maturities in random order, one of them twice, with interleaved
+    put/call/digital/forward/density/cdf/price/butterfly calls; every result is compared with a fresh object's
+    (bit-for-bit on the unchanged tree, tolerance 1e-12*spot) and the shape / closed-form oracles run on the reused
+    object's outputs."""
+    case, spot = B.case, B.spot
+    hist = case["hist"]
+    base = {k: v for k, v in case.items() if k not in ("K", "hist")}
+    reused = COSPricer(B.model)
+    reused_cf = B.model.closed_form if case["fam"] == "bs" else None
+    reused_fft = FFTPricer(B.model) if (hist.get("fft") and heavy) else None
+    ctx.count("c18.cos.pricer_reuse", dict(base, hist=hist), nontrivial=True, branch=case["fam"])
+    seen = []
+    for n, step in enumerate(hist["steps"]):
+        t = step["T"]
+        Bt = Built(dict(base, T=t, m=9))          # fresh model + fresh pricer, used at this single maturity only
+        K = Bt.K
+        u = math.log(spot) + np.linspace(Bt.a, Bt.b, 7)[1:-1]
+        got = {}
+        for op in step["ops"]:
+            r_val = _op(reused, op, K, t, u)
+            f_val = _op(COSPricer(Bt.model), op, K, t, u)
+            got[op] = r_val
+            sc = 1.0 if op in ("digital", "density", "cdf") else spot
+            err = float(np.max(np.abs(r_val - f_val))) if np.all(np.isfinite(r_val)) else float("inf")
+            note("cos.pricer_reuse", err, 1e-12 * sc)
+            if not err <= 1e-12 * sc:
+                ctx.fail("oracle", "c18.cos.pricer_reuse", dict(base, hist=hist),
+                         {"what": f"COSPricer.{op} at T={t} depends on the object's history: reused object != fresh object",
+                          "step": n, "maturities_priced_before": seen, "K": K, "reused": r_val, "fresh": f_val}, cls=B.cls)
+                return
+        seen.append(t)
+        if Bt.inbox:
+            bad = shape_violation(K, got["call"], got["put"], Bt.df, Bt.F, spot)
+            if bad is None and (np.max(-got["digital"]) > 1e-9 or np.max(got["digital"] - Bt.df) > 1e-9 or np.max(np.diff(got["digital"])) > 1e-9):
+                bad = "digital outside [0, df] or increasing"
+            if bad is None and np.max(np.abs(got["call"] - got["put"] - Bt.df * (Bt.F - K))) > 1e-10 * spot:
+                bad = "call - put != df*(F-K)"
+            if bad:
+                ctx.fail("oracle", "c18.cos.pricer_reuse", dict(base, hist=hist),
+                         {"what": f"reused COSPricer at T={t}: {bad}", "step": n, "maturities_priced_before": seen[:-1], "K": K,
+                          "call": got["call"], "put": got["put"], "digital": got["digital"], "df": Bt.df, "F": Bt.F}, cls=B.cls)
+                return
+        if reused_cf is not None:
+            c_r, p_r, g_r = (np.asarray(x) for x in (reused_cf.call(K, t), reused_cf.put(K, t), reused_cf.digital(K, t)))
+            cf_f = Bt.model.closed_form
+            c_f, p_f, g_f = (np.asarray(x) for x in (cf_f.call(K, t), cf_f.put(K, t), cf_f.digital(K, t)))
+            if max(np.max(np.abs(c_r - c_f)), np.max(np.abs(p_r - p_f)), spot * np.max(np.abs(g_r - g_f))) > 1e-12 * spot:
+                ctx.fail("oracle", "c18.bs.pricer_reuse", dict(base, hist=hist),
+                         {"what": f"CFBlackScholes at T={t}: reused object != fresh object", "reused": c_r, "fresh": c_f}, cls=B.cls)
+                return
+            if Bt.inbox and (np.max(np.abs(c_r - got["call"])) > 1e-10 * spot or np.max(np.abs(p_r - got["put"])) > 1e-10 * spot
+                             or np.max(np.abs(g_r - got["digital"])) > 1e-9):
+                ctx.fail("oracle", "c18.cos.pricer_reuse", dict(base, hist=hist),
+                         {"what": f"reused COSPricer at T={t} != Black-Scholes closed form", "step": n, "maturities_priced_before": seen[:-1],
+                          "K": K, "cos_call": got["call"], "cf_call": c_r, "cos_put": got["put"], "cf_put": p_r}, cls=B.cls)
+                return
+        if reused_fft is not None and n < 2:
+            try:
+                f_r = np.asarray(reused_fft.call(K, t))
+                p_r = np.asarray(reused_fft.put(K, t))
+                fresh = FFTPricer(Bt.model)
+                f_f, p_f = np.asarray(fresh.call(K, t)), np.asarray(fresh.put(K, t))
+            except ValueError as e:
+                if "sufficient condition" not in str(e):
+                    raise
+                continue
+            err = max(np.max(np.abs(f_r - f_f)), np.max(np.abs(p_r - p_f)))
+            if not err <= 1e-12 * spot or (Bt.fftbox and np.max(np.abs(f_r - got["call"])) > FFT_TOL * spot):
+                ctx.fail("oracle", "c18.fft.pricer_reuse", dict(base, hist=hist),
+                         {"what": f"FFTPricer at T={t}: reused object != fresh object / COS", "reused": f_r, "fresh": f_f, "cos": got["call"]},
+                         cls=B.cls)
+                return
+
+
 # ---------------------------------------------------------------------------------------------------- correspondence (C)
 def composition_corr(ctx, B, call, put, fwdc, dig):
     case, cos, T, K = B.case, B.cos, B.T, B.K
@@ -495,6 +622,8 @@ def coefficient_corr(ctx, B, rng):
 
 # ---------------------------------------------------------------------------------------------------- driver
 def run_case(ctx, case, rng, heavy=True):
+    if "hist" not in case:
+        case["hist"] = draw_history(rng, case["T"])
     B = Built(case)
     ctx.branches[f"box:{case['fam']}:{'in' if B.inbox else 'out'}"] += 1
     if B.inbox and not B.fftbox:
@@ -503,6 +632,7 @@ def run_case(ctx, case, rng, heavy=True):
     composition_corr(ctx, B, call, put, fwdc, dig)
     coefficient_corr(ctx, B, rng)
     cdf_probe(ctx, B, dig)
+    reuse_probe(ctx, B, heavy)
     fc = fft_probes(ctx, B, call, put) if heavy or B.inbox else None
     if not B.inbox:
         return B
